@@ -11,7 +11,7 @@ use std::time::Duration;
 static ACT_OK: AtomicU8 = AtomicU8::new(0);
 
 macro_rules! rv_suite {
-  ($modname:ident, $path:path, $h1:ident, $h2:ident, $h3:ident, $h4:ident) => {
+  ($modname:ident, $path:path, $h1:ident, $h2:ident, $h3:ident, $h4:ident, $h5:ident) => {
     mod $modname {
       use super::*;
       use $path as rv;
@@ -110,6 +110,21 @@ macro_rules! rv_suite {
         std::mem::forget(tx);
       }
 
+      /// C03 (rendezvous: a send completes only by pairing with a receive): same race as above, stated
+      /// from the sender's side: if try_send reported Ok, the timed receive must have received.
+      #[kani::proof]
+      #[kani::unwind(5)]
+      pub(crate) fn $h5() {
+        setup!(tx, rx);
+        sched::install(a_try_send, 1, 1);
+        let r = rx.as_ref().unwrap().recv_timeout(Duration::from_nanos(5));
+        let sent = ACT_OK.load(Relaxed) == 1;
+        assert!(!sent || r.is_ok(), "C03: rendezvous try_send completed without pairing with a receive");
+        kani::cover!(sent, "the hand-off happened");
+        std::mem::forget(rx);
+        std::mem::forget(tx);
+      }
+
       /// C04/C05: a parked recv()/send() is released with Disconnected/Closed when the peer goes away.
       #[kani::proof]
       #[kani::unwind(5)]
@@ -133,9 +148,9 @@ macro_rules! rv_suite {
     }
   };
 }
-rv_suite!(spsc_rv, fibre::spsc::rendezvous, c05_q_rvspsc_recv_vs_try_send, c05_t_rvspsc_send_vs_try_recv, c01_q_rvspsc_recv_timeout_vs_try_send, c04_t_rvspsc_parked_vs_peer_drop);
-rv_suite!(mpsc_rv, fibre::mpsc::rendezvous, c05_q_rvmpsc_recv_vs_try_send, c05_t_rvmpsc_send_vs_try_recv, c01_q_rvmpsc_recv_timeout_vs_try_send, c04_t_rvmpsc_parked_vs_peer_drop);
-rv_suite!(mpmc_rv, fibre::mpmc::rendezvous, c05_t_rvmpmc_recv_vs_try_send, c05_t_rvmpmc_send_vs_try_recv, c01_x_rvmpmc_recv_timeout_vs_try_send, c04_t_rvmpmc_parked_vs_peer_drop);
+rv_suite!(spsc_rv, fibre::spsc::rendezvous, c05_q_rvspsc_recv_vs_try_send, c05_t_rvspsc_send_vs_try_recv, c01_q_rvspsc_recv_timeout_vs_try_send, c04_t_rvspsc_parked_vs_peer_drop, c03_q_rvspsc_try_send_ok_implies_paired);
+rv_suite!(mpsc_rv, fibre::mpsc::rendezvous, c05_q_rvmpsc_recv_vs_try_send, c05_t_rvmpsc_send_vs_try_recv, c01_q_rvmpsc_recv_timeout_vs_try_send, c04_t_rvmpsc_parked_vs_peer_drop, c03_q_rvmpsc_try_send_ok_implies_paired);
+rv_suite!(mpmc_rv, fibre::mpmc::rendezvous, c05_t_rvmpmc_recv_vs_try_send, c05_t_rvmpmc_send_vs_try_recv, c01_x_rvmpmc_recv_timeout_vs_try_send, c04_t_rvmpmc_parked_vs_peer_drop, c03_x_rvmpmc_try_send_ok_implies_paired);
 
 // ---------------------------------------------------------------- async fronts, sequential at poll granularity
 use std::future::Future;
@@ -221,14 +236,14 @@ macro_rules! rv_async_suite {
           drop(rx);
           assert!(wakes(0) >= 1, "C06: pending rendezvous send not woken when the receiver went away");
           assert!(matches!(poll_slot(&mut f, 0), Poll::Ready(Err(_))), "C04: pending rendezvous send did not report Closed");
-          std::mem::forget(f);
+          f = None;
         } else {
           let mut g = Some(rx.recv());
           assert!(poll_slot(&mut g, 1).is_pending(), "C03: rendezvous recv completed without a sender");
           drop(tx);
           assert!(wakes(1) >= 1, "C06: pending rendezvous recv not woken when the sender went away");
           assert!(matches!(poll_slot(&mut g, 1), Poll::Ready(Err(_))), "C04: pending rendezvous recv did not report Disconnected");
-          std::mem::forget(g);
+          g = None;
         }
       }
     }
@@ -238,3 +253,24 @@ rv_async_suite!(spsc_rva_s, fibre::spsc::rendezvous, true, c03_t_rvspsc_async_pa
 rv_async_suite!(spsc_rva_r, fibre::spsc::rendezvous, false, c03_q_rvspsc_async_pairing_receiver_first, c06_q_rvspsc_async_cancel_recv, c04_q_rvspsc_async_sender_gone);
 rv_async_suite!(mpsc_rva_s, fibre::mpsc::rendezvous, true, c03_t_rvmpsc_async_pairing_sender_first, c06_t_rvmpsc_async_cancel_send, c04_t_rvmpsc_async_receiver_gone);
 rv_async_suite!(mpsc_rva_r, fibre::mpsc::rendezvous, false, c03_t_rvmpsc_async_pairing_receiver_first, c06_t_rvmpsc_async_cancel_recv, c04_t_rvmpsc_async_sender_gone);
+
+/// C04: a receive is pending, then the receiver handle is closed: every later send form reports Closed
+/// and hands the value back; the pending receive never yields a value afterwards.
+#[kani::proof]
+#[kani::unwind(5)]
+fn c04_q_rvspsc_async_send_after_receiver_closed() {
+  let (tx, rx) = fibre::spsc::rendezvous::rendezvous_async::<u8>();
+  let mut g = Some(rx.recv());
+  assert!(poll_slot(&mut g, 1).is_pending(), "C03: rendezvous recv completed without a sender");
+  assert!(rx.close().is_ok(), "C04: first close() failed");
+  assert!(rx.close().is_err(), "C04: second close() did not report CloseError");
+  match tx.try_send(7) {
+    Err(TrySendError::Closed(v)) => assert!(v == 7, "C04: Closed did not hand the value back"),
+    _ => assert!(false, "C04: try_send succeeded (or reported Full) after the receiver closed"),
+  }
+  match poll_slot(&mut g, 1) {
+    Poll::Ready(Ok(_)) => assert!(false, "C04: a closed receiver obtained a value"),
+    _ => {}
+  }
+  g = None; // a registered rendezvous future points the channel at its own storage: it must be dropped, not leaked
+}
